@@ -130,6 +130,11 @@ module Arms = struct
             let f = match op with "and" -> ibig_bitand_asis | "or" -> ibig_bitor_asis | _ -> ibig_bitxor_asis in
             V (hx (f w64 o (sg a) (br (mag a)) (sg b) (br (mag b))))))
     | _ -> None
+  (* gcd at Repr level (Forms/FormsGcd.v over C12's primitive / Lehmer models and C02's remainder
+     kernels): every ownership form runs the one body on the magnitudes *)
+  let gcd_asis a b : (string -> fr) option =
+    if not (small a b) || nwords a + nwords b > 80 then None
+    else Some (memo (fun _ o -> of_res hx (uval (i_gcd_form w64 o (tr (mag a)) (tr (mag b))))))
   let shift_asis kind op a n : (string -> fr) option =
     if Zar.numbits n > 20 then None
     else
@@ -173,7 +178,8 @@ let judge_int kind args forms =
       verdict ~cls ?asis (met4 @ opsp @ (if both then dra2 else [])) forms (all_same w)
   | "gcd" ->
       let w = if Zar.sign a = 0 && Zar.sign b = 0 then gcd_zero else V (hx (Zar.gcd a b)) in
-      verdict ~cls met4 forms (all_same (exactly w))
+      let asis = want_of (Arms.gcd_asis a b) in
+      verdict ~cls ?asis met4 forms (all_same (exactly w))
   | "gcdext" ->
       if Zar.sign a = 0 && Zar.sign b = 0 then verdict ~cls met4 forms (all_same (exactly gcd_zero))
       else
@@ -317,6 +323,14 @@ let judge_fbin ?(known_ok = true) cls b m op (p1, x1) (p2, x2) names forms =
       let first = (match forms with (_, f) :: _ -> f | [] -> P "none") in
       let same_as_first txt okf = { ok = (fun g -> g = first && okf g); txt } in
       let over = Zar.sign p <> 0 && (Zar.gt (dlen b s1) p || Zar.gt (dlen b s2) p) in
+      (* the open class float_operand_exceeds_precision, exactly (Forms/FormsFloatR3.v float_mul_class,
+         float_div_class_exact); + and - are outside it since the repair of the zero shortcut *)
+      let two_p = Zar.mul (Zar.of_int 2) p in
+      let in_class = Zar.sign p <> 0 && (match op with
+        | "mul" -> Zar.gt (dlen b s1) two_p || Zar.gt (dlen b s2) two_p
+        | "div" -> Zar.gt (dlen b s1) (Zar.add p (dlen b s2))
+        | _ -> false) in
+      let cls = if over then cls ^ "-over" else cls in
       let tag = "float_operand_exceeds_precision" in
       let shown r = V (fshow b p r) in
       let contract x = same_as_first "rounding-contract+all-forms-identical" (contract_ok b p m x) in
@@ -326,19 +340,24 @@ let judge_fbin ?(known_ok = true) cls b m op (p1, x1) (p2, x2) names forms =
         | _ -> "" in
       let vk (asis : string -> want) spec =
         if not known_ok then verdict ~cls ~path names forms spec
-        else if over then verdict ~cls ~path ~asis ~tag names forms spec
+        else if in_class then verdict ~cls ~path ~asis ~tag names forms spec
         else verdict ~cls ~path ~asis names forms spec in
       (match op with
        | "add" | "sub" ->
            let sg = if op = "add" then Positive else Negative in
            let (n, d) = qadd q1 (if op = "add" then q2 else qneg q2) in
            let asis nme = exactly (shown (match nme with
-             | "vv" | "av" -> add_val_val_x b p1 p2 m s1 e1 s2 e2 sg
-             | "vr" | "ar" -> add_val_ref_x b p1 p2 m s1 e1 s2 e2 sg
-             | "rv" -> add_ref_val_x b p1 p2 m s1 e1 s2 e2 sg
-             | "rr" -> add_ref_ref_x b p1 p2 m s1 e1 s2 e2 sg
-             | _ -> approx_val ((if op = "add" then ctx_add_x else ctx_sub_x) b p m s1 e1 s2 e2))) in
-           vk asis (all_same (contract (XRat (n, d))))
+             | "vv" | "av" -> fadd_form_x b OVV p1 p2 m s1 e1 s2 e2 sg
+             | "vr" | "ar" -> fadd_form_x b OVR p1 p2 m s1 e1 s2 e2 sg
+             | "rv" -> fadd_form_x b ORV p1 p2 m s1 e1 s2 e2 sg
+             | "rr" -> fadd_form_x b ORR p1 p2 m s1 e1 s2 e2 sg
+             | _ -> approx_val ((if op = "add" then ctx_add_x else ctx_sub_r3_x) b p m s1 e1 s2 e2))) in
+           (* an operand longer than the result precision: C15 demands that all forms return the same
+              value (and the as-is models predict it); whether that value is the correctly rounded sum
+              is C03's question there (its over-long findings); here: the value of the form models, which
+              are proved to agree (C15_float_add_ctx_agrees_r3 / C15_float_sub_ctx_agrees_r3) *)
+           if over then vk asis (fun nme -> let w = asis nme in { ok = (fun g -> g = first && w.ok g); txt = w.txt ^ "+all-forms-identical" })
+           else vk asis (all_same (contract (XRat (n, d))))
        | "mul" ->
            let (n, d) = qmul q1 q2 in
            let asis nme = exactly (shown (match nme with
@@ -513,14 +532,23 @@ let judge_ratio_int kind args forms =
   let first = (match forms with (_, f) :: _ -> f | [] -> P "none") in
   let cls = kind ^ "-" ^ op ^ "-" ^ List.nth args 3 in
   let right = [ "big"; "bv_pv"; "bv_pr"; "br_pv"; "br_pr" ] in
-  let w o = qwant relaxed first (c15_qint o x i) in
+  (* Relaxed results are not canonical (0/3 and 0/1 are the same value): the four ownership arms of
+     one macro body must store the identical pair, the all-rational form `big` / `gib` (another body)
+     must only return the same value - C15_relaxed_int_forms_agree is up to the value *)
+  let first_of names = (match List.filter (fun (n, _) -> List.mem n names) forms with (_, f) :: _ -> f | [] -> P "none") in
+  let arms_r = [ "bv_pv"; "bv_pr"; "br_pv"; "br_pr" ] and arms_l = [ "pv_bv"; "pr_bv"; "pv_br"; "pr_br" ] in
+  let w o = fun n ->
+    let fst_ = if not relaxed then first
+      else if List.mem n arms_r then first_of arms_r else if List.mem n arms_l then first_of arms_l
+      else (match List.assoc_opt n forms with Some f -> f | None -> P "none") in
+    qwant relaxed fst_ (c15_qint o x i) in
   match op with
-  | "add" -> verdict ~cls (right @ pleft) forms (all_same (w IAdd))
-  | "mul" -> verdict ~cls (right @ pleft) forms (all_same (w IMul))
-  | "sub" -> verdict ~cls right forms (all_same (w ISub))
-  | "rsub" -> verdict ~cls pleft forms (all_same (w IRsub))
-  | "div" -> verdict ~cls right forms (all_same (w IDiv))
-  | "rdiv" -> verdict ~cls pleft forms (all_same (w IRdiv))
+  | "add" -> verdict ~cls (right @ pleft) forms (w IAdd)
+  | "mul" -> verdict ~cls (right @ pleft) forms (w IMul)
+  | "sub" -> verdict ~cls right forms (w ISub)
+  | "rsub" -> verdict ~cls pleft forms (w IRsub)
+  | "div" -> verdict ~cls right forms (w IDiv)
+  | "rdiv" -> verdict ~cls pleft forms (w IRdiv)
   | _ -> fail ("unknown-op-" ^ kind ^ "-" ^ op)
 
 let judge_ratio_unary kind args forms =
@@ -597,27 +625,39 @@ let judge_clone_float args forms =
   let b = z (List.nth args 0) in
   let a i = List.nth args i in
   let p1 = z (a 2) in
-  let w = match fopnd b (a 3) (a 4) with
-    | Inf neg -> V ((if neg then "-inf" else "inf") ^ ",0," ^ hx p1 ^ ",1")
-    | Fin (s, e) -> V (fshow b p1 (s, e) ^ ",1") in
-  verdict ~cls:"clone-float" [ "clone"; "clone_from" ] forms (all_same (exactly w))
+  let shown = match fopnd b (a 3) (a 4) with
+    | Inf neg -> (if neg then "-inf" else "inf") ^ ",0," ^ hx p1
+    | Fin (s, e) -> fshow b p1 (s, e) in
+  (* value and precision of the source; source untouched by mutating the copy; equal to the source /
+     to clone() under == and in a follow-up multiplication *)
+  verdict ~cls:"clone-float" [ "clone"; "clone_from" ] forms (all_same (exactly (V (shown ^ ",1,1"))))
 
 let judge_clone_ratio args forms =
   let a i = z (List.nth args i) in
   let x = canon (a 0) (a 1) in
-  let rb = exactly (V (qshow x ^ "," ^ qshow x ^ ",1")) in
+  let rb = exactly (V (qshow x ^ "," ^ qshow x ^ ",1,1")) in
   let rx = { ok = (function
       | V s -> (match String.split_on_char ',' s with
-          | [ n1; d1; n2; d2; "1" ] -> n1 = n2 && d1 = d2 && Zar.sign (z d1) > 0 && veqb (z n1, z d1) x
+          | [ n1; d1; n2; d2; "1"; "1" ] -> n1 = n2 && d1 = d2 && Zar.sign (z d1) > 0 && veqb (z n1, z d1) x
           | _ -> false)
-      | _ -> false); txt = "value=" ^ qshow x ^ ",clone=clone_from,independent" } in
+      | _ -> false); txt = "value=" ^ qshow x ^ ",clone=clone_from,same-in-follow-up-ops,independent" } in
   verdict ~cls:"clone-ratio" [ "rbig"; "relaxed" ] forms (fun n -> if n = "rbig" then rb else rx)
 
+(* Reduced: clone_from onto a destination of the same ring or of ANOTHER ring (any representation):
+   afterwards residue and modulus are those of the source, == and + with the source work (they panic
+   with 'different rings' otherwise), equal to clone(); along a history of clone_from between two rings *)
 let judge_clone_reduced args forms =
   let m = z (List.nth args 0) in
+  let m2 = if List.length args > 3 then z (List.nth args 3) else m in
   let r = Zar.erem (z (List.nth args 1)) m in
-  verdict ~cls:"clone-reduced" [ "reduced" ] forms (all_same (exactly (V (hx r ^ "," ^ hx r ^ ",1"))))
-
+  let r2 = Zar.erem (z (List.nth args 2)) m2 in
+  let kind v = let n = (Zar.numbits v + 63) / 64 in if n <= 1 then "1" else if n = 2 then "2" else "L" ^ string_of_int n in
+  let cls = "clone-reduced-" ^ (if Zar.equal m m2 then "same" else kind m2 ^ "to" ^ kind m) in
+  let sum = Zar.erem (Zar.mul (Zar.of_int 2) r) m in
+  let want n = match n with
+    | "chain" -> exactly (V (String.concat "," [ hx r2; hx m2; "1"; hx r; hx m; "1"; hx (Zar.erem (Zar.mul r r) m) ]))
+    | _ -> exactly (V (String.concat "," [ hx r; hx m; hx r; hx m; "1"; hx sum; "1" ])) in
+  verdict ~cls [ "reduced"; "chain" ] forms want
 
 (* ---------------------------------------------------------------- Sum / Product, method vs Context *)
 let fold_names = [ "owned"; "refs"; "fold_v"; "fold_r" ]
@@ -644,12 +684,23 @@ let judge_iter args forms =
 
 (* floats: every item is rounded into the running precision, the explicit folds are judged by the `f`
    cases; here the four forms must return the same thing *)
+let rec triples = function a :: b :: c :: t -> (a, b, c) :: triples t | _ -> []
 let judge_iter_float args forms =
-  let op = List.nth args 0 in
-  let first = (match forms with (_, f) :: _ -> f | [] -> P "none") in
+  let op = List.nth args 0 and b = z (List.nth args 1) and m = mode_of (List.nth args 2) in
   let has_inf = List.exists (fun t -> t = "inf" || t = "-inf") args in
-  let ok g = g = first && (match g with V _ -> not has_inf | P c -> has_inf && starts_with "OperateWithInf" c) in
-  verdict ~cls:("itf-" ^ op) ~nt:false fold_names forms (all_same { ok; txt = "all-forms-identical" })
+  if has_inf then
+    verdict ~cls:("itf-" ^ op ^ "-inf") fold_names forms (all_same (exactly (P "OperateWithInf")))
+  else begin
+    (* Sum / Product = the fold of the operator + / * from FBig::ZERO / FBig::ONE (Forms/FormsR3Spec.v
+       fsum_asis / fprod_asis, regenerated from iter.rs): owned items and the by-value fold run the
+       T + T body, borrowed items and += the T + &T body *)
+    let items = List.map (fun (p, s, e) -> let (s, e) = normalize b (z s) (z e) in (z p, (s, e))) (triples (drop 3 args)) in
+    let want o =
+      let (p, (s, e)) = if op = "sum" then fsum_asis_x b m o items else fprod_asis b m items in
+      exactly (V (fshow b p (s, e))) in
+    let spec n = match n with "refs" | "fold_r" -> want OVR | _ -> want OVV in
+    verdict ~cls:("itf-" ^ op) ~asis:spec fold_names forms spec
+  end
 
 let judge_fmethod args forms =
   let op = List.nth args 0 and b = z (List.nth args 1) and m = mode_of (List.nth args 2) in
